@@ -311,6 +311,9 @@ class Result:
                 if f.startswith(pid + '-'):
                     os.remove(os.path.join(d, f))
 
+    def violations_found(self):
+        return len(self.tie_failures) + len(self.oracle_failures)
+
     def count(self, key, n=1):
         self.hist[key] = self.hist.get(key, 0) + n
 
